@@ -269,7 +269,6 @@ func (g *G) Workload(id string, n int) wl.Workload {
 	return wl.Workload{ID: id, Cfg: c, Calls: g.Calls(n, c.ChunkSize)}
 }
 
-
 // AsmWorkload draws a "remuxing" workload: the caller assembles chunks itself and hands them over with
 // WriteChunkWithIndexes, registers schemas and channels with AddSchema / AddChannel, and mixes in attachments and
 // metadata.  The caller's side of the contract is kept by construction: every assembled chunk is self-contained
@@ -443,7 +442,6 @@ func (g *G) AsmWorkload(id string, n int, unregistered bool) wl.Workload {
 	return wl.Workload{ID: id, Cfg: c, Calls: calls}
 }
 
-
 // BulkCalls draws a workload of about totalKiB KiB of message data in messages of 40-600 KiB, alternating between
 // highly compressible, text-like and incompressible payloads, on two channels, with an attachment in the middle.
 func (g *G) BulkCalls(totalKiB int) []wl.Call {
@@ -478,6 +476,30 @@ func (g *G) BulkCalls(totalKiB int) []wl.Call {
 	return append(calls, wl.Call{Op: "close"})
 }
 
+// OversizedCalls is a recording of small messages with one message far larger than the chunk size (and than a MiB) in the
+// middle: the writer's chunk buffer grows for it once, and the chunks after it must come out like the chunks before it.
+func (g *G) OversizedCalls(bigAt, bigKiB int) []wl.Call {
+	calls := []wl.Call{{Op: "header", Profile: []byte("oversized")},
+		{Op: "schema", ID: 1, Name: []byte("s"), Enc: []byte("e"), Data: []byte("d")},
+		{Op: "channel", ID: 1, Schema: 1, Topic: []byte("/small"), Menc: []byte("m")},
+		{Op: "channel", ID: 2, Topic: []byte("/big"), Menc: []byte("m")}}
+	n := bigAt + 8 + g.R.Intn(20)
+	for i := 0; i < n; i++ {
+		if i == bigAt {
+			b := make([]byte, bigKiB<<10+g.R.Intn(4096))
+			g.R.Read(b[:len(b)/3])
+			calls = append(calls, wl.Call{Op: "message", Ch: 2, Seq: uint32(i), Log: uint64(100 + i), Pub: uint64(i), Data: b})
+			continue
+		}
+		d := make([]byte, 10+g.R.Intn(300))
+		g.R.Read(d)
+		calls = append(calls, wl.Call{Op: "message", Ch: 1, Seq: uint32(i), Log: uint64(100 + i), Pub: uint64(i), Data: d})
+		if i == bigAt+3 {
+			calls = append(calls, wl.Call{Op: "metadata", Name: []byte("after"), MD: []wl.KV{{K: []byte("k"), V: []byte("v")}}})
+		}
+	}
+	return append(calls, wl.Call{Op: "close"})
+}
 
 // Reannounce returns the call sequence with channel (and schema) records written again, identically, right after some of
 // the messages that use them: recorders re-announce channels periodically, and the specification allows a channel record to
@@ -504,7 +526,6 @@ func (g *G) Reannounce(calls []wl.Call) []wl.Call {
 	}
 	return out
 }
-
 
 // ReannounceWorkload is a chunked recording on three topics in which, chunk after chunk, a channel is announced again
 // right after its last message of the chunk while other channels go on: at the flush the writer must still know that the
